@@ -1481,6 +1481,8 @@ fn main() {
     let max_seq = args.get_u64("max-sequences", args.pick(100_000, 10_000_000));
     let kmax = args.get_u64("jump-max-log2", args.pick(14, 17)) as u32;
     let jump_every = args.get_u64("jump-every", args.pick(40, 25));
+    let jump_share = args.get_u64("jump-share-percent", 25) as f64 / 100.0;
+    let mut jump_secs = 0f64;
     let mut i = 0u64;
     while i < max_seq && c.r.time_left() {
         i += 1;
@@ -1493,7 +1495,9 @@ fn main() {
         };
         let max_ops = if args.tier == Tier::Quick { 1500 } else { 8000 };
         // now and then a large tree (sizes around 2^k up to 2^kmax), time permitting
-        let jump = if i % jump_every == 0 && c.r.frac_left() > 0.15 {
+        // (a fixed share of the elapsed time, so that a loaded machine still reaches them)
+        let _ = jump_every;
+        let jump = if jump_secs < jump_share * c.r.elapsed().as_secs_f64() && c.r.frac_left() > 0.1 {
             let k = rng.gen_range(10..=kmax);
             let p = 1u64 << k;
             Some(match rng.gen_range(0..7) {
@@ -1508,10 +1512,14 @@ fn main() {
         } else {
             None
         };
+        let t0 = c.r.elapsed().as_secs_f64();
         match (i + args.shard) % 3 {
             0 => run_sequence::<V1>(&mut c, &mut rng, ml, max_ops, jump),
             1 => run_sequence::<V2>(&mut c, &mut rng, ml, max_ops, jump),
             _ => run_sequence::<V3>(&mut c, &mut rng, ml, max_ops, jump),
+        }
+        if jump.is_some() {
+            jump_secs += c.r.elapsed().as_secs_f64() - t0;
         }
     }
     c.r.finish();
